@@ -64,21 +64,21 @@ enum Op : unsigned {
 constexpr OpInfo info(Op op)
 {
     switch (op) {
-    case rEmplace: return {"emplace(T&)", aY};
-    case rReset: return {"reset()", 0};
-    case rAssignNullopt: return {"operator=(nullopt)", 0};
-    case rAssignLvalue: return {"operator=(T&) rebind", aY};
-    case rAssignOptConst: return {"operator=(optional const&)", aY};
-    case rAssignOptRv: return {"operator=(optional&&)", aY};
-    case rSelfAssign: return {"operator=(self const&)", 0};
-    case rSwapMember: return {"swap(other)", aY};
-    case rSwapAdl: return {"swap(a,b)", aY};
-    case rSwapSelf: return {"swap(self)", 0};
+    case rEmplace: return {"emplace(T&)", aY | aM};
+    case rReset: return {"reset()", aM};
+    case rAssignNullopt: return {"operator=(nullopt)", aM};
+    case rAssignLvalue: return {"operator=(T&) rebind", aY | aM};
+    case rAssignOptConst: return {"operator=(optional const&)", aY | aM};
+    case rAssignOptRv: return {"operator=(optional&&)", aY | aM};
+    case rSelfAssign: return {"operator=(self const&)", aM};
+    case rSwapMember: return {"swap(other)", aY | aM};
+    case rSwapAdl: return {"swap(a,b)", aY | aM};
+    case rSwapSelf: return {"swap(self)", aM};
     case rCopyCtor: return {"ctor(optional const&)", 0};
-    case rMoveCtor: return {"ctor(optional&&)", 0};
+    case rMoveCtor: return {"ctor(optional&&)", aM};
     case rCtorFromAltRef: return {"ctor(optional<U&> const&)", aY};
     case rCtorFromValueOpt: return {"ctor(optional<U> const&) binds contained value", aY};
-    case rWriteThrough: return {"*opt = v (write through)", aV};
+    case rWriteThrough: return {"*opt = v (write through)", aV | aM};
     case rRelOptRef: return {"relational(optional<T&>,optional<T&>)", aY};
     case rRelValueOpt: return {"relational(optional<T&>,optional<T>)", aY};
     case rRelNullopt: return {"relational(optional<T&>,nullopt)", 0};
@@ -121,6 +121,10 @@ struct RefSubject {
     }
     static constexpr Table table   = make_table();
     static constexpr unsigned kOps = table.n;
+    static bool is_mutator(unsigned w) { return (info(table.ops[w]).args & aM) != 0; }
+    static constexpr Mutators<Table, OpInfo (*)(Op)> muts{table, &info};
+    static unsigned n_mutators() { return muts.n; }
+    static unsigned mutator_at(unsigned k) { return muts.idx[k]; }
 
     AltStore tg[kTargets] = {AltStore(kTargetValue[0]), AltStore(kTargetValue[1]), AltStore(kTargetValue[2]), AltStore(kTargetValue[3])};
     O* x = nullptr;
